@@ -247,7 +247,7 @@ def run_idd(case, stt):
 def idd_hist_case(draw):
     base = draw(idd_case())
     steps = [draw(st.sampled_from(["same", "same", "dm", "ref", "start", "data_len", "align", "dm_unit", "rate"])) for _ in range(draw(st.integers(1, 4)))]
-    return {"base": base, "steps": steps, "pick": draw(st.integers(0, 10**6)), "one_object": draw(st.booleans())}
+    return {"base": base, "steps": steps, "pick": draw(st.integers(0, 10**6)), "one_object": draw(st.sampled_from([False, True, "refusals"]))}
 
 
 def run_idd_hist(case, stt):
